@@ -11,21 +11,24 @@ PROP = dict(
                "against the real final directory; after each state-changing operation a new node is started on the materialised "
                "directory. It must start; every (field, view, shard) must hold exactly the acknowledged model state or the state after "
                "the single write in flight; API reads (Row, Field.Value) must agree with the recovered fragments; every acknowledged "
-               "key must resolve to its id both ways; inside writes/snapshots one more write + clean restart must keep everything. "
+               "key must resolve to its id both ways; inside writes/snapshots one more write + clean restart must keep everything, and every "
+               "fragment that has a leftover .snapshotting file is emptied through the op log, snapshotted once (shorter than the leftover), "
+               "written to again and must come back exactly like that after the clean restart. "
                "Exploration, not proof: held at every crash point of every generated history.",
     level_note="Process-kill model of the property text: completed syscalls persist, nothing else (power loss / missing fsync are out of "
                "scope by design; a write(2) is atomic). Trusted: strace, the 300-line replayer (self-check: full replay == real directory, "
                "else the run is inconclusive), the model in c09_model_test.go. The node is pilosa.Server+API in process (no HTTP, no "
                "gossip, nop attribute store): attribute stores (BoltDB) are not exercised. Crash points start after schema creation "
-               "and the first (fixed) int write. Schedules of the background snapshot worker are those that happen to occur.",
+               "(the first write is one that creates a shard). Schedules of the background snapshot worker are those that happen to occur.",
     rule="one evaluation = one crash point (history, k): the directory after the first k file-system operations of the traced run. "
          "distinct = hash(history, k). non-trivial = k lies strictly inside the operations of the write in flight (some done, some to "
          "come) or a .snapshotting file exists at k. Classes: kind of the k-th operation x file class, kind/field of the write in flight, "
          "inside-multi-append (k between two op-log appends of one write to one fragment).",
     assumptions=["crash points are taken between completed syscalls (process-kill model), per the property's quantifier",
                  "histories are sequential (one client); concurrency is C29's subject",
-                 "roaring imports only on unkeyed indexes (they address columns by id); the first (fixed) write gives the int field a "
-                 "non-zero bit depth before the crash points start (a stored depth of 0 is re-interpreted on restart: D9, owned by another group)",
+                 "roaring imports only on unkeyed indexes (they address columns by id)",
+                 "open finding DC3 excuses only the exact intermediate state of the four multi-append write shapes listed in its text, "
+                 "identified by write kind, fragment and number of completed appends",
                  "fragment.MaxOpN is lowered by the child after each write (generated: 2/5/12/default) to make snapshots frequent"],
     tags=["gc"],
     units=[
